@@ -8,14 +8,14 @@ H = 'harness/e2/c13_meta.c'
 SRC = ['src/thrift/thrift_decode.c', 'src/thrift/thrift_encode.c', 'src/thrift/parquet_types.c', 'src/core/arena.c', 'src/core/buffer.c', 'src/core/error.c']
 REF = ['ref_thrift.c', 'ref_parquet_meta.c']
 FGROUPS = {0: 'nothing symbolic (shape only)', 1: 'version i32, num_rows i64', 2: 'created_by and key/value strings (length 0..3, every byte but NUL)',
-           3: 'SchemaElement type, type_length, repetition_type, root num_children', 4: 'SchemaElement converted_type, scale, precision, field_id',
+           3: 'SchemaElement type, type_length (>= 0), repetition_type, root num_children (>= 0)', 4: 'SchemaElement converted_type, scale, precision, field_id',
            5: 'SchemaElement name bytes, LogicalType kind (all 14) and its parameters', 6: 'RowGroup total_byte_size, num_rows', 7: 'RowGroup file_offset, total_compressed_size',
            8: 'RowGroup ordinal i16, ColumnChunk file_offset, offset_index_length', 9: 'ColumnChunk offset_index_offset, column_index_offset',
            10: 'ColumnChunk file_path, column_index_length, ColumnMetaData type / codec / encodings[0] / bloom_filter_length', 11: 'ColumnMetaData num_values, total_uncompressed_size',
-           12: 'ColumnMetaData total_compressed_size, data_page_offset', 13: 'ColumnMetaData index_page_offset, dictionary_page_offset', 14: 'ColumnMetaData bloom_filter_offset, Statistics null_count',
+           12: 'ColumnMetaData total_compressed_size, data_page_offset', 13: 'ColumnMetaData index_page_offset, dictionary_page_offset', 14: 'ColumnMetaData bloom_filter_offset, Statistics null_count (0 included: presence must not depend on the value)',
            15: 'Statistics distinct_count, max_value, min_value (binary, length 0..3, every byte)', 16: 'Statistics deprecated max / min (binary), path_in_schema[0]',
            17: 'ColumnMetaData key/value strings and encoding_stats (written by the reference writer only)'}
-PGROUPS = {0: 'nothing symbolic', 1: 'uncompressed_page_size, compressed_page_size', 2: 'crc, num_values, encoding and level encodings', 3: 'num_nulls, num_rows, is_sorted',
+PGROUPS = {0: 'nothing symbolic', 1: 'uncompressed_page_size, compressed_page_size', 2: 'crc over its whole range (0, -1, INT32_MIN included: has_crc must not depend on the value), num_values (0 included), encoding and level encodings', 3: 'num_nulls, num_rows, is_sorted',
            4: 'level byte lengths, is_compressed', 5: 'page Statistics deprecated max / min', 6: 'page Statistics null_count', 7: 'page Statistics distinct_count, max_value, min_value'}
 OPTS = {0: 'canonical encoding', 1: 'every field header in long form, every list size in long form', 2: 'unknown scalar fields of every wire type (bool true/false, byte, i16, i32, i64, double, binary, uuid), ids with gaps > 15, negative id',
         3: 'unknown container fields: nested structs, lists of i32 / structs / lists / binaries, sets, maps', 4: 'unknown lists of booleans (one byte per element)',
